@@ -22,6 +22,18 @@ RULE = ('Hypothesis draws feature-forced shell models x valid configurations (al
 ASSUMPTIONS = c06.ASSUMPTIONS + ['release events of multi-client ports reply void']
 
 
+CLIENT_PAIRS = [('A', 'B'), ('B', 'A'), ('ui', 'cli'), ('client10', 'client1'), ('p', 'panel'),
+                ('z', 'a')]
+
+
+def clients_of(info):
+    """The two client identifiers of a multi-client case, in registration order: ascending,
+    descending, prefixes of each other - a pure function of the configuration."""
+    import json
+    import zlib
+    return CLIENT_PAIRS[zlib.crc32(json.dumps(info.spec, sort_keys=True).encode()) % len(CLIENT_PAIRS)]
+
+
 def plan(info):
     """[(command line, expectation dict)] covering every exposed (port, event) pair."""
     steps = []
@@ -54,7 +66,8 @@ def plan(info):
         from vf.model import declarations, lookup
         ed = lookup(declarations(info.sm['model']), claim['ret'], p['itf']['fqn'])[0]
         gidx = ed['elem']['fields'].index(mc['grant'][0])
-        for client in ('A', 'B'):
+        first, second = clients_of(info)
+        for client in (first, second):
             steps.append((f'force {nm}.{claim["name"]} {gidx}', None))
             steps.append((f'mccall {client} {nm} {claim["name"]}',
                           {'role': 'client->provides-in', 'port': nm, 'ev': claim, 'side': 'comp',
@@ -69,7 +82,7 @@ def plan(info):
                                   {'role': 'component->provides-out', 'port': nm, 'ev': ev,
                                    'side': 'user', 'hport': f'{nm}@{client}'}))
             outs = [e for e in evs if e['dir'] == 'out']
-            if outs and client == 'B':
+            if outs and client == second:
                 # the component answers the release with an out-event of its own, raised while it
                 # handles the release: both have to arrive (the release at the component, the
                 # out-event at the releasing client, who still holds the claim)
@@ -111,7 +124,7 @@ def script_for(info, steps):
     imp = int(not info.create)
     script = [f'locator {imp} {imp} 1 0', 'construct inst']
     if info.mc:
-        script += ['client A -', 'client B -']
+        script += [f'client {c} -' for c in clients_of(info)]
     script += ['bind -', 'final 1']
     for i, (cmd, exp) in enumerate(steps):
         if exp is not None:
